@@ -90,7 +90,7 @@ pub fn o_skip(input: &[u8], p: &P) -> Out {
 
 pub fn run() {
 	let cx = ctx();
-	cx.note("rule", json!("finished well-formed replays (Game End last): all 784 versions with a 2-frame game; layout-class edges x {gecko none / 1 block / 2 blocks / 129 blocks} x {1, 2 Game Ends} x {metadata, none, empty} x histories with items and absences (so the skipped distance varies) x compute_hash {off,on} x compression x read schedule of the skip read {full, 1-, 7-, 1000-byte chunks}; compared with the full read: start, end, metadata equal; zero frames with one empty column set per occupied port (every column length 0, version gates right); the result writes, re-reads, and survives .slpp; peppi::read's skip option likewise. Non-trivial = has gecko, doubled end, no metadata, absence or items"));
+	cx.note("rule", json!("finished well-formed replays (Game End last): all 784 versions with a 2-frame game; layout-class edges x {gecko none / 1 block / 2 blocks / 129 blocks} x {1, 2 Game Ends} x {metadata, none, empty, non-ASCII} x histories with items and absences (so the skipped distance varies) x compute_hash {off,on} x compression x read schedule of the skip read {full, 1-, 7-, 1000-byte chunks}; compared with the full read: start, end, metadata equal; zero frames with one empty column set per occupied port (every column length 0, version gates right); the result writes, re-reads, and survives .slpp; peppi::read's skip option likewise. Non-trivial = has gecko, doubled end, no metadata, absence or items"));
 	cx.note("exhaustive", json!(true));
 	cx.note("assumptions", json!(["gecko codes and quirks of the skip result are not compared: the statement does not promise them"]));
 	let mut cases: Vec<(AbsReplay, P)> = vec![];
@@ -106,7 +106,8 @@ pub fn run() {
 		};
 		for gk in geckos {
 			for ends in [1u8, 2] {
-				for meta in [Some(default_meta()), None, Some(vec![])] {
+				let intl: crate::ubj::Meta = vec![("プレイヤー".into(), crate::ubj::MVal::Str("ピーチ姫 é ü".into())), ("n".into(), crate::ubj::MVal::Int(-7))];
+				for meta in [Some(default_meta()), None, Some(vec![]), Some(intl)] {
 					for nf in [0usize, 1, 3] {
 						let mut a = base_replay(v, vec![pc(1, false), PortCfg { port: 3, ics: true, ptype: 2 }], nf);
 						if nf == 3 {
